@@ -43,6 +43,9 @@ type Response struct {
 	headEncoded  bool
 	hasBody      bool
 	hijacked     bool
+	// the head has to be sent before the body length is known and the
+	// response is not chunked (HTTP/1.0): the body is delimited by closing.
+	closeDelimited bool
 }
 
 // Hijack .
@@ -367,6 +370,12 @@ func (res *Response) Flush() {
 
 	res.WriteHeader(http.StatusOK)
 	res.checkChunked()
+	if !res.headEncoded && !res.chunked && len(res.header[contentLengthHeader]) == 0 &&
+		res.statusCode != http.StatusNoContent && res.statusCode != http.StatusNotModified {
+		// Flushing the head now means committing to a length that is not
+		// known yet; without chunking only connection close can end the body.
+		res.closeDelimited = true
+	}
 	res.eoncodeHead()
 
 	conn := res.Parser.Conn
@@ -456,7 +465,9 @@ func (res *Response) eoncodeHead() {
 		const contentType = "Content-Type: text/plain; charset=utf-8\r\n"
 		pdata = mempool.AppendString(pdata, contentType)
 	}
-	if !res.chunked && len(res.header[contentLengthHeader]) == 0 {
+	if res.closeDelimited {
+		res.request.Close = true
+	} else if !res.chunked && len(res.header[contentLengthHeader]) == 0 {
 		const contentLenthPrefix = "Content-Length: "
 		if !res.hasBody {
 			pdata = mempool.AppendString(pdata, contentLenthPrefix)
